@@ -172,7 +172,7 @@ class SymIter(HeapObj):
 class SymDict(HeapObj):
     """Concrete keys in first-insertion order; per key presence Cond and Value."""
 
-    __slots__ = ("keys", "pres", "vals", "ordered")
+    __slots__ = ("keys", "pres", "vals", "ordered", "symkeys")
 
     def __init__(self, ordered=False):
         self._init_heap()
@@ -180,6 +180,9 @@ class SymDict(HeapObj):
         self.pres = {}
         self.vals = {}
         self.ordered = ordered
+        # a key was stored through a symbolic key expression: the engine's key order is then an
+        # approximation of the insertion order (iterations over such a dict are counted)
+        self.symkeys = False
 
 
 class StructStr(object):
